@@ -563,23 +563,30 @@ def run_scenario(server, sc):
     def diverge(k, lab, model, impl):
         """first difference between model and implementation; the rest of the interleaving is still forced (same
         labels, same deterministic scheduler) so that the oracle judges a reproducible run"""
-        if not res['disagree']:
+        if not res['disagree'] and expect is not None:
             res['disagree'].append({'step': k, 'label': lab, 'model': model, 'impl': impl})
+
+    stalled, progress = {}, [0]
 
     def loop_free():
         return c.bridge._thread.is_alive() and g.position('L') not in ('wantLock', 'haveLock', 'stopCalled', 'eventSet')
 
     for k, lab in enumerate(labels):
         diverged = bool(res['disagree'])
-        tmo = 0.25 if diverged else 2.0
+        tmo = 0.25 if (diverged or expect is None) else 2.0
         if lab[0] == 'c' and lab != 'close':
             i = int(lab[1:])
             if g.position(i) == 'end':
                 diverge(k + 1, lab, 'enabled', f'thread T{i} has already finished')
+            elif stalled.get(i) == progress[0]:
+                pass        # it was blocked and nothing has happened since: still blocked
             else:
                 pos = g.advance(i, loop, tmo)
                 if pos is None:
+                    stalled[i] = progress[0]
                     diverge(k + 1, lab, 'enabled', f'thread T{i} did not reach its next statement (blocked after {g.position(i)})')
+                    res['steps_done'] = k + 1
+                    continue
         elif lab[0] == 'j':
             i = int(lab[1:])
             j = W.jobs.get(i)
@@ -639,6 +646,7 @@ def run_scenario(server, sc):
             else:
                 time.sleep(0.005)
         res['steps_done'] = k + 1
+        progress[0] += 1
         if not res['disagree']:
             check(k + 1, lab)
 
@@ -949,8 +957,12 @@ def shrink(sc, kind, budget=40):
 
     def fails(cfg, labels):
         r = pool.map([{'id': 0, 'cfg': cfg, 'labels': labels, 'expect': None, 'grace': 1.0}])[0]
-        return any(rep['kind'] == kind for _, rep in oracle_findings({'cfg': cfg, 'labels': labels}, r))
+        for w, rep in oracle_findings({'cfg': cfg, 'labels': labels}, r):
+            if rep['kind'] == kind:
+                return (w, rep)
+        return None
     used = 0
+    last = None
     progress = True
     while progress and used < budget:
         progress = False
@@ -975,13 +987,15 @@ def shrink(sc, kind, budget=40):
                 break
             used += 1
             try:
-                if fails(c2, l2):
+                f = fails(c2, l2)
+                if f:
                     cur = {'cfg': c2, 'labels': l2}
+                    last = f
                     progress = True
                     break
             except Exception:  # noqa
                 pass
-    return cur
+    return last
 
 
 def correspondence(ctx, sc, r, final):
@@ -1072,7 +1086,7 @@ def run(ctx):
     _install_known(ctx)
     rng = ctx.rng
     quick = ctx.tier == 'quick'
-    n_cfg = 90 if quick else 900
+    n_cfg = 220 if quick else 2600
     ctx.cov['rule'] = ('configuration = 1..3 caller threads x programs of 1..3 calls over {recv, send, sendUnseq, close, logout, execTimed} '
                        'x 0..3 peer events {reply, eos, disc}; for each, maximal interleavings generated by the model (one unrestricted, '
                        'one preferring steps outside the known-defect window) and forced on the real classes statement by statement; '
@@ -1103,6 +1117,11 @@ def run(ctx):
     if not have_model:
         scs = [{'cfg': c, 'labels': l.split(), 'expect': None, 'final': None} for c, l in FALLBACK]
         scs += [dict(s, expect=None, final=None) for s in load_corpus()]
+        for _ in range(40 if quick else 400):       # blind search: random label sequences, executed best-effort
+            cfg = gen_cfg(rng, ctx.tier)
+            nthr = len(cfg['progs'])
+            pool_ = [f'c{i}' for i in range(nthr)] * 6 + [f'j{i}' for i in range(nthr)] * 2 + ['close'] * 4 + ['stop', 'peer', 'peer']
+            scs.append({'cfg': cfg, 'labels': [rng.choice(pool_) for _ in range(70)], 'expect': None, 'final': None})
         ctx.notes.append('C20: model driver unavailable — oracle only, on the fallback and corpus interleavings')
     for k, s in enumerate(scs):
         s['id'] = k
@@ -1135,9 +1154,8 @@ def run(ctx):
         what, rep = ctx.violations[0]
         try:
             small = shrink(rep, rep['kind'])
-            if (len(small['labels']), len(str(small['cfg']))) < (len(rep['labels']), len(str(rep['cfg']))):
-                ctx.violations[0] = (what + '  [minimised from ' + cfg_sx(rep['cfg']) + ']',
-                                     dict(rep, cfg=small['cfg'], labels=small['labels'], caller=None))
+            if small:
+                ctx.violations[0] = (small[0] + '  [minimised from ' + cfg_sx(rep['cfg']) + ']', small[1])
         except Exception as e:  # noqa
             ctx.notes.append('C20: shrinking failed: ' + repr(e)[:200])
     # ---- soup.connect
